@@ -83,6 +83,36 @@ func propEndings(c harness.Case) harness.Result {
 	cr := bytes.ReplaceAll(x, []byte("\n"), []byte("\r"))
 	if h := strings.ReplaceAll(cmutil.RenderDefault(cr), "\r", "\n"); h != base {
 		res.Err = fmt.Errorf("CR changes the rendering:\n LF: %q\n CR: %q", base, h)
+		return res
+	}
+	// the same through the streaming entry point, one byte per read (a CRLF pair
+	// then always straddles two reads)
+	for _, v := range []struct {
+		name string
+		in   []byte
+		back func(string) string
+	}{
+		{"CRLF", crlf, func(s string) string { return strings.ReplaceAll(s, "\r\n", "\n") }},
+		{"CR", cr, func(s string) string { return strings.ReplaceAll(s, "\r", "\n") }},
+	} {
+		if len(v.in) > 600 {
+			continue
+		}
+		ones := make([]int, len(v.in))
+		for i := range ones {
+			ones[i] = 1
+		}
+		blocks, refs, err := tree.StreamParse(gen.NewSchedReader(v.in, ones, false, -1))
+		if err != nil {
+			res.Err = fmt.Errorf("streaming parse: %v", err)
+			return res
+		}
+		var buf bytes.Buffer
+		cm.RenderHTML(&buf, blocks, refs)
+		if h := v.back(buf.String()); h != base {
+			res.Err = fmt.Errorf("%s changes the rendering when the document is streamed one byte per read:\n LF:   %q\n %s: %q", v.name, base, v.name, h)
+			return res
+		}
 	}
 	return res
 }
